@@ -859,6 +859,10 @@ def findUnchangedAtomPairs (orig_structure_positions : List Vec3) (orig_structur
       )
   pure match_pairs
 
+/-- translated from `atoms_of_type` in mofun/helpers.py: the positions of `element` in `types`, ascending -/
+def atomsOfType (types : List String) (element : String) : List Nat :=
+  (List.filterMap (fun (i, t) => if ((t == element)) then some i else none) (Py.enumerate types))
+
 /-- translated from `replace_pattern_in_structure` in mofun/mofun.py (FRAGMENT: is the replacement empty, i.e. is this a pure deletion) -/
 def replaceEmptyBranch (replace_pattern_len : Nat) : Bool :=
   (replace_pattern_len == 0)
